@@ -125,6 +125,64 @@ fn welford_long(case: &Case) -> Verdict {
     Verdict::pass(len >= 1000, vec![format!("shape_{shape}"), format!("len_1e{}", (len as f64).log10().floor() as i64)])
 }
 
+/// long streams for Drawdown and LnReturn in f64 against integer bookkeeping; ints = [seed, len, shape, which]
+fn dd_ln_long(case: &Case) -> Verdict {
+    let (seed, len, shape, which) = (case.ints[0] as u64, case.ints[1] as usize, case.ints[2], case.ints[3]);
+    let scale = 1.0 / 64.0;
+    let mut st = seed;
+    let spec = if which == 0 { Spec::Drawdown(echo()) } else { Spec::LnReturn(echo()) };
+    let mut v = build::<f64>(&spec);
+    let mut level: i64 = 1 << 16;
+    let (mut peak, mut best): (i64, (i128, i128)) = (0, (0, 1)); // best = (peak - k, peak) as a fraction
+    let mut prev: Option<i64> = None;
+    let mut peaks = 0;
+    for t in 0..len {
+        let r = gen::splitmix(&mut st);
+        let k: i64 = match shape {
+            0 => 1 + (r % (1 << 20)) as i64,
+            1 => {
+                // walk with plateaus and a slow upward drift (new peaks keep arriving after drawdowns)
+                if r % 7 != 0 {
+                    level = (level + (r % 2049) as i64 - 1020).clamp(1, 1 << 40);
+                }
+                level
+            }
+            _ => (1 << 20) + (r % 16) as i64,
+        };
+        v.update(k as f64 * scale);
+        let got = v.last();
+        if which == 0 {
+            if k > peak {
+                peak = k;
+                peaks += 1;
+            }
+            let cand = ((peak - k) as i128, peak as i128);
+            if cand.0 * best.1 > best.0 * cand.1 {
+                best = cand;
+            }
+            let want = best.0 as f64 / best.1 as f64;
+            match got {
+                Some(g) if g.is_finite() && (g - want).abs() <= 4.0 * f64::EPSILON => {}
+                other => return Verdict::fail("C13/Drawdown/long/f64|value", format!("n = {}: Drawdown = {other:?} expected max_j (peak_j - x_j)/peak_j = {want:e} (seed {seed}, shape {shape})", t + 1)),
+            }
+        } else {
+            match (prev, got) {
+                (None, None) => {}
+                (None, Some(g)) => return Verdict::fail("C13/LnReturn/long/f64|readiness", format!("reported {g:e} for the first input")),
+                (Some(p), got) => {
+                    let want = (k as f64 / p as f64).ln();
+                    match got {
+                        Some(g) if g.is_finite() && (g - want).abs() <= 1e-15 * (1.0 + want.abs()) => {}
+                        other => return Verdict::fail("C13/LnReturn/long/f64|value", format!("n = {}: LnReturn = {other:?} expected ln({k}/{p}) = {want:e} (seed {seed}, shape {shape})", t + 1)),
+                    }
+                }
+            }
+            prev = Some(k);
+        }
+    }
+    Verdict::pass(len >= 1000 && (which == 1 || peaks >= 2), vec![format!("shape_{shape}"), format!("len_1e{}", (len as f64).log10().floor() as i64), spec.name().to_string()])
+}
+
 fn drawdown_ref(h: &[R]) -> Vec<R> {
     let mut peak: Option<R> = None;
     let mut best = R::zero();
@@ -260,7 +318,8 @@ pub fn clauses() -> Vec<Clause> {
     let srule = "positive grammar streams of 0..200 values (thorough ..300) on dyadic grids: walks, runs up and down, plateaus, spikes, repeats (new peaks after deeper troughs, repeated equal peaks).";
     vec![
         Clause::generated("C13", "C13/WelfordRolling/batch/Q", format!("{srule} Oracle: mean(), variance(), last() equal sum x/n, sum (x-mu)^2/n and its root after every update, exactly in Q (2^-150 for the root). Non-trivial: n >= 3, non-constant."), 1500, 30_000, move |t| pos_stream(t).prop_map(|xs| Case::of(Spec::WelfordRolling(echo()), xs)).boxed(), welford_q).with_shard(100),
-        Clause::generated("C13", "C13/WelfordRolling/long/f64", "streams of 2e4 (thorough up to 1e6) positive values derived from a generated seed: noise, random walk with plateaus, large level with tiny spread; f64 run vs exact integer accumulators at 256 evenly spaced steps and the end; tolerances 1e-9 max|x| (mean), 1e-9 max|x|^2 (variance), 3.3e-5 max|x| (std). Non-trivial: n >= 1000.", 48, 480, |tier| (any::<u64>(), prop_oneof![Just(2_000usize), Just(20_000usize), Just(tier.pick(20_000usize, 1_000_000usize))], 0i64..3).prop_map(|(s, len, shape)| Case { spec: Some(Spec::WelfordRolling(echo())), ints: vec![(s >> 1) as i64, len as i64, shape], a: Rat(1, 1), ..Default::default() }).boxed(), welford_long).with_shard(4),
+        Clause::generated("C13", "C13/WelfordRolling/long/f64", "streams of 2e3 / 2e4 / 1.4e5 (thorough up to 1e6; past 2^16 and 2^17 samples) positive values derived from a generated seed: noise, random walk with plateaus, large level with tiny spread; f64 run vs exact integer accumulators at 256 evenly spaced steps and the end; tolerances 1e-9 max|x| (mean), 1e-9 max|x|^2 (variance), 3.3e-5 max|x| (std). Non-trivial: n >= 1000.", 48, 480, |tier| (any::<u64>(), prop_oneof![Just(2_000usize), Just(20_000usize), Just(tier.pick(140_000usize, 1_000_000usize))], 0i64..3).prop_map(|(s, len, shape)| Case { spec: Some(Spec::WelfordRolling(echo())), ints: vec![(s >> 1) as i64, len as i64, shape], a: Rat(1, 1), ..Default::default() }).boxed(), welford_long).with_shard(4),
+        Clause::generated("C13", "C13/rolling/long/f64", "Drawdown and LnReturn over streams of 2e3 / 1.4e5 (thorough 1e6) positive values derived from a generated seed (noise, drifting walk with plateaus, large level with tiny spread), f64 run vs integer bookkeeping of the running peak / largest relative decline (4 eps) and ln of the quotient (1e-15 relative), at every step. Non-trivial: n >= 1000 and (Drawdown) >= 2 running peaks.", 24, 240, |tier| (any::<u64>(), prop_oneof![Just(2_000usize), Just(tier.pick(140_000usize, 1_000_000usize))], 0i64..3, 0i64..2).prop_map(|(s, len, shape, which)| Case { spec: Some(if which == 0 { Spec::Drawdown(echo()) } else { Spec::LnReturn(echo()) }), ints: vec![(s >> 1) as i64, len as i64, shape, which], a: Rat(1, 1), ..Default::default() }).boxed(), dd_ln_long).with_shard(4),
         Clause::generated("C13", "C13/Drawdown/batch/Q", format!("{srule} Oracle: max_j (peak_j - x_j)/peak_j with peak_j the running maximum, every step, exact. Non-trivial: >= 2 running peaks and a decline after a new peak that followed an earlier drawdown."), 2500, 50_000, move |t| pos_stream(t).prop_map(|xs| Case::of(Spec::Drawdown(echo()), xs)).boxed(), drawdown_check(true)).with_shard(200),
         Clause::generated("C13", "C13/Drawdown/batch/f64", format!("{srule} Same oracle on the f64 run, 4 eps."), 2500, 50_000, move |t| pos_stream(t).prop_map(|xs| Case::of(Spec::Drawdown(echo()), xs)).boxed(), drawdown_check(false)).with_shard(400),
         Clause::generated("C13", "C13/gated/Q", format!("{srule} WelfordRolling, Drawdown and LnReturn over a leaf that withholds its first k in 1..9 inputs: the answer does not change during the withheld updates and afterwards equals, step by step, the same view over Echo fed only the delivered values (whose agreement with the batch definition is the other clauses' subject)."), 1500, 20_000, move |t| (pos_stream(t), 0usize..3, 1i64..=9).prop_map(|(xs, w, k)| Case { spec: Some([Spec::WelfordRolling(echo()), Spec::Drawdown(echo()), Spec::LnReturn(echo())][w].clone()), xs, ints: vec![k], a: Rat(1, 1), ..Default::default() }).boxed(), gated_check).with_shard(100),
